@@ -495,6 +495,10 @@ impl<T: Types> RaftLog<T> {
         &mut self,
         rec: &WALRecord<T>,
     ) -> Result<Segment, io::Error> {
+        // Refuse an invalid record before it is journalled or touches the
+        // state machine: a refused write must leave no trace.
+        self.state_machine.log_state.validate(rec)?;
+
         WAL::append(&mut self.wal, rec)?;
         StateMachine::apply(
             &mut self.state_machine,
